@@ -486,6 +486,16 @@ func (x *X) specCall(env *SpecEnv, se *SpecExpr, call *ast.CallExpr) Value {
 	case "ref":
 		v := arg(0)
 		return scalar(tUint64, v.C[0])
+	case "has":
+		// has(m, k): key k is present in Go map m
+		m, k := arg(0), arg(1)
+		mt, ok := m.T.Underlying().(*types.Map)
+		if !ok {
+			fail("has(): first argument must be a map")
+		}
+		k = x.typed(k, mt.Key())
+		h, _ := x.mapLoad(env.st, m, x.mapKeyTerm(k))
+		return boolVal(h)
 	case "isnil":
 		v := arg(0)
 		return boolVal(Eq(v.C[0], BVInt(0, 64)))
